@@ -112,14 +112,14 @@ func yamlList(key string, items []string) []string {
 				out = append(out, "  "+l)
 			}
 		} else {
-			out = append(out, "- "+yq(it))
+			out = append(out, "- "+c18yq(it))
 		}
 	}
 	return out
 }
 
-// yq quotes a scalar when YAML would not read it back as the same string.
-func yq(s string) string {
+// c18yq quotes a scalar when YAML would not read it back as the same string.
+func c18yq(s string) string {
 	if s == "" || strings.ContainsAny(s, ":#{}[]&*!|>'\"%@`, ") || s == "." || s == ".." || s == "~" ||
 		s == "null" || s == "true" || s == "false" || strings.HasPrefix(s, "-") || strings.HasPrefix(s, "?") {
 		return `"` + strings.ReplaceAll(strings.ReplaceAll(s, `\`, `\\`), `"`, `\"`) + `"`
@@ -155,7 +155,7 @@ func (r *root18) fill(rootRefs map[string][]string) {
 	}
 	if rng.Chance(8) {
 		f := r.add(r.fname("schema", ".json"), openapiDoc)
-		r.lines = append(r.lines, "openapi:", "  path: "+yq(r.spell(f)))
+		r.lines = append(r.lines, "openapi:", "  path: "+c18yq(r.spell(f)))
 	}
 	if rng.Chance(18) {
 		f := r.add(r.fname("cfg", ".yaml"), "namePrefix:\n- path: metadata/name\n  kind: ConfigMap\n")
@@ -195,16 +195,16 @@ func (r *root18) fill(rootRefs map[string][]string) {
 				}
 				r.lines = append(r.lines, "  files:")
 				for _, x := range fl {
-					r.lines = append(r.lines, "  - "+yq(x))
+					r.lines = append(r.lines, "  - "+c18yq(x))
 				}
 			}
 			if rng.Chance(45) {
 				f := r.add(r.fname("vars", ".env"), fmt.Sprintf("E%d=%s\n", i, r.tagN))
-				r.lines = append(r.lines, "  envs:", "  - "+yq(r.spell(f)))
+				r.lines = append(r.lines, "  envs:", "  - "+c18yq(r.spell(f)))
 			}
 			if rng.Chance(12) {
 				f := r.add(r.fname("old", ".env"), fmt.Sprintf("O%d=%s\n", i, r.tagN))
-				r.lines = append(r.lines, "  env: "+yq(r.spell(f)))
+				r.lines = append(r.lines, "  env: "+c18yq(r.spell(f)))
 			}
 			if rng.Chance(40) {
 				r.lines = append(r.lines, "  literals:", "  - lit=eral")
@@ -216,11 +216,11 @@ func (r *root18) fill(rootRefs map[string][]string) {
 		r.lines = append(r.lines, "patches:")
 		if rng.Chance(60) {
 			f := r.add(r.fname("patch", ".yaml"), smpDoc(r.depName(), 2))
-			r.lines = append(r.lines, "- path: "+yq(r.spell(f)))
+			r.lines = append(r.lines, "- path: "+c18yq(r.spell(f)))
 		}
 		if rng.Chance(50) {
 			f := r.add(r.fname("jp", ".yaml"), json6902Doc)
-			r.lines = append(r.lines, "- path: "+yq(r.spell(f)), "  target:", "    kind: Deployment", "    name: "+r.depName())
+			r.lines = append(r.lines, "- path: "+c18yq(r.spell(f)), "  target:", "    kind: Deployment", "    name: "+r.depName())
 		}
 		if rng.Chance(25) {
 			// inline patch: Path is empty
@@ -233,7 +233,7 @@ func (r *root18) fill(rootRefs map[string][]string) {
 	if rng.Chance(10) {
 		r.ensureDep()
 		f := r.add(r.fname("j6902", ".yaml"), json6902Doc)
-		r.lines = append(r.lines, "patchesJson6902:", "- path: "+yq(r.spell(f)), "  target:", "    group: apps", "    version: v1", "    kind: Deployment", "    name: "+r.depName())
+		r.lines = append(r.lines, "patchesJson6902:", "- path: "+c18yq(r.spell(f)), "  target:", "    group: apps", "    version: v1", "    kind: Deployment", "    name: "+r.depName())
 	}
 	if rng.Chance(25) {
 		r.ensureDep()
@@ -251,15 +251,15 @@ func (r *root18) fill(rootRefs map[string][]string) {
 		r.ensureDep()
 		f := r.add(r.fname("repl", ".yaml"),
 			"source:\n  kind: Deployment\n  name: "+r.depName()+"\n  fieldPath: metadata.name\ntargets:\n- select:\n    kind: Deployment\n    name: "+r.depName()+"\n  fieldPaths:\n  - spec.template.metadata.labels.app\n")
-		r.lines = append(r.lines, "replacements:", "- path: "+yq(r.spell(f)))
+		r.lines = append(r.lines, "replacements:", "- path: "+c18yq(r.spell(f)))
 	}
 	if rng.Chance(15) {
 		// generator plugin file with file references of its own
 		d := r.add(r.fname("gdata", ".txt"), "g "+r.tagN+"\n")
-		body := "apiVersion: builtin\nkind: ConfigMapGenerator\nmetadata:\n  name: " + r.tagN + "-plug\nfiles:\n- " + yq("gk="+r.spell(d)) + "\n"
+		body := "apiVersion: builtin\nkind: ConfigMapGenerator\nmetadata:\n  name: " + r.tagN + "-plug\nfiles:\n- " + c18yq("gk="+r.spell(d)) + "\n"
 		if rng.Chance(50) {
 			e := r.add(r.fname("g", ".env"), "G="+r.tagN+"\n")
-			body += "envs:\n- " + yq(r.spell(e)) + "\n"
+			body += "envs:\n- " + c18yq(r.spell(e)) + "\n"
 		}
 		f := r.add(r.fname("gen", ".yaml"), body)
 		r.fields["generators"] = append(r.fields["generators"], r.spell(f))
@@ -273,21 +273,21 @@ func (r *root18) fill(rootRefs map[string][]string) {
 			switch rng.Intn(4) {
 			case 0:
 				p := r.add(r.fname("tpatch", ".yaml"), smpDoc(r.depName(), 6))
-				body = "apiVersion: builtin\nkind: PatchTransformer\nmetadata:\n  name: " + r.tagN + fmt.Sprintf("-pt%d", i) + "\npath: " + yq(r.spell(p)) + "\n"
+				body = "apiVersion: builtin\nkind: PatchTransformer\nmetadata:\n  name: " + r.tagN + fmt.Sprintf("-pt%d", i) + "\npath: " + c18yq(r.spell(p)) + "\n"
 			case 1:
 				p := r.add(r.fname("tpsm", ".yaml"), smpDoc(r.depName(), 8))
-				body = "apiVersion: builtin\nkind: PatchStrategicMergeTransformer\nmetadata:\n  name: " + r.tagN + fmt.Sprintf("-psm%d", i) + "\npaths:\n- " + yq(r.spell(p)) + "\n"
+				body = "apiVersion: builtin\nkind: PatchStrategicMergeTransformer\nmetadata:\n  name: " + r.tagN + fmt.Sprintf("-psm%d", i) + "\npaths:\n- " + c18yq(r.spell(p)) + "\n"
 				if rng.Chance(40) {
 					// an inline patch among the paths
 					body += "- |-\n  apiVersion: apps/v1\n  kind: Deployment\n  metadata:\n    name: " + r.depName() + "\n  spec:\n    replicas: 9\n"
 				}
 			case 2:
 				p := r.add(r.fname("tj", ".yaml"), json6902Doc)
-				body = "apiVersion: builtin\nkind: PatchJson6902Transformer\nmetadata:\n  name: " + r.tagN + fmt.Sprintf("-pj%d", i) + "\ntarget:\n  group: apps\n  version: v1\n  kind: Deployment\n  name: " + r.depName() + "\npath: " + yq(r.spell(p)) + "\n"
+				body = "apiVersion: builtin\nkind: PatchJson6902Transformer\nmetadata:\n  name: " + r.tagN + fmt.Sprintf("-pj%d", i) + "\ntarget:\n  group: apps\n  version: v1\n  kind: Deployment\n  name: " + r.depName() + "\npath: " + c18yq(r.spell(p)) + "\n"
 			default:
 				p := r.add(r.fname("trepl", ".yaml"),
 					"source:\n  kind: Deployment\n  name: "+r.depName()+"\n  fieldPath: metadata.name\ntargets:\n- select:\n    kind: Deployment\n    name: "+r.depName()+"\n  fieldPaths:\n  - spec.template.metadata.labels.app\n")
-				body = "apiVersion: builtin\nkind: ReplacementTransformer\nmetadata:\n  name: " + r.tagN + fmt.Sprintf("-rt%d", i) + "\nreplacements:\n- path: " + yq(r.spell(p)) + "\n"
+				body = "apiVersion: builtin\nkind: ReplacementTransformer\nmetadata:\n  name: " + r.tagN + fmt.Sprintf("-rt%d", i) + "\nreplacements:\n- path: " + c18yq(r.spell(p)) + "\n"
 			}
 			f := r.add(r.fname("tr", ".yaml"), body)
 			items = append(items, r.spell(f))
